@@ -10,8 +10,10 @@
     |OK (nor PANIC / TIMEOUT / CRASH), and `hx load yaml eager` fails too;
 (c) the 94 `fail: true` cases of the yaml-test-suite must be rejected.
 Tie: the Coq model pipeline (`mx events str`) rejects the same inputs at the same position.
-Known findings (known_findings_c06.jsonl): decidable predicates on the damaged text; only those classes print
-KNOWN-FINDING and exit 0, any other acceptance is a violation."""
+Known findings (known_findings_c06.jsonl): decidable predicates on the damaged text; only the classes with status `known`
+(2: implicit key > 1024 characters in a flow sequence, flow continuation line at the block indentation) print
+KNOWN-FINDING and exit 0, any other acceptance is a violation -- in particular of the two classes repaired in /repo
+(c5ad60c stray closer behind an empty explicit key, ad74b3e multi-line flow pair key behind a flow mapping)."""
 import json
 import os
 import re
@@ -823,20 +825,13 @@ OPS = [
 # ------------------------------------------------------------------------------------------------
 # known findings: decidable predicates on the damaged text
 # ------------------------------------------------------------------------------------------------
-_STRAY = re.compile(r"(^|[\[,\s])\?[ ]*\][ ]*\]")
 _LONGKEY = re.compile(r"(k{1021,}['\"]?): v \]")
-_MLKEY = re.compile(r"(['\"]?)ab\n +cd\1: v \]")
 
-
-def flow_mapping_seen_before_multiline_key(text):
-    m = _MLKEY.search(text)
-    return bool(m) and "{" in unquoted(text[:m.start()])
-
-
+# Two classes recorded earlier are repaired in /repo and suppress nothing any more (known_findings_c06.jsonl lists them as
+# `fixed`): the stray closer behind an empty explicit key (c5ad60c) and the multi-line flow pair key behind an earlier flow
+# mapping (ad74b3e).  Their operator variants (03/stray-closer-after-empty-explicit-key, 07/*-flow-pair-key-on-two-lines)
+# and the fixed witnesses below are ordinary test streams now: an acceptance is a VIOLATION.
 PREDICATES = {
-    # a flow sequence whose last entry is an empty explicit key ("?" directly followed by "]") and then one more "]"
-    "stray-closer-after-empty-explicit-key":
-        lambda cls, var, text: cls == "03-mismatched-closer" and bool(_STRAY.search(text)),
     # an implicit key of more than 1024 characters as single pair of a flow sequence
     "long-implicit-key-in-flow-sequence":
         lambda cls, var, text: cls == "08-long-key" and var.startswith("flow-pair-key") and bool(_LONGKEY.search(text)),
@@ -845,10 +840,6 @@ PREDICATES = {
     "flow-continuation-at-block-indentation":
         lambda cls, var, text: cls == "06-flow-indent"
         and var == "continuation-at-block-indentation/non-plain-start/plain-scalar-before",
-    # a quoted single-pair key spanning two lines in a flow sequence, after any "{" earlier in the stream
-    "multiline-flow-pair-key-after-flow-mapping":
-        lambda cls, var, text: cls == "07-multiline-key" and var.endswith("-flow-pair-key-on-two-lines")
-        and flow_mapping_seen_before_multiline_key(text),
 }
 
 
@@ -944,9 +935,22 @@ def check_C06(tier, seed):
         ("02-open-flow", "witness", "[a, b\n"), ("02-open-flow", "witness", "k: {a: 1,\n"),
         ("03-mismatched-closer", "witness", "[a, b}\n"), ("03-mismatched-closer", "witness", "{a: 1]\n"),
         ("03-mismatched-closer", "witness", "k: [a]]\n"),
+        # regression witnesses of /repo c5ad60c (were accepted: the ']' behind an empty explicit key was swallowed)
+        ("03-mismatched-closer", "stray-closer-after-empty-explicit-key", "[ ? ] ]"),
+        ("03-mismatched-closer", "stray-closer-after-empty-explicit-key", "[a, ? ] ]\n"),
+        ("03-mismatched-closer", "stray-closer-after-empty-explicit-key", "k: [ ? ] ]\n"),
+        ("03-mismatched-closer", "stray-closer-after-empty-explicit-key", "[ ? ] , ]\n"),
         ("04-tab-indent", "witness", "a:\n\tb: 1\n"), ("05-misindent", "witness", "a:\n  b: 'x'\n c: 1\n"),
         ("06-flow-indent", "witness", "k:\n  j: [a,\n  b]\n"), ("06-flow-indent", "witness", "k: [a,\nb]\n"),
-        ("07-multiline-key", "witness", "\"a\n  b\": 1\n"), ("08-long-key", "witness", "k" * 1025 + ": v\n"),
+        ("07-multiline-key", "witness", "\"a\n  b\": 1\n"),
+        # regression witnesses of /repo ad74b3e (were accepted once any '{' had been seen, also in an earlier document)
+        ("07-multiline-key", "quoted-flow-pair-key-on-two-lines", "[ \"a\n b\": v ]\n"),
+        ("07-multiline-key", "quoted-flow-pair-key-on-two-lines", "- {}\n- [ \"a\n b\": v ]\n"),
+        ("07-multiline-key", "plain-flow-pair-key-on-two-lines", "{}\n---\n[ a\n b: v ]\n"),
+        ("07-multiline-key", "quoted-flow-pair-key-on-two-lines", "[ {x: 1}, 'a\n b': v ]\n"),
+        ("07-multiline-key", "plain-flow-pair-key-on-two-lines", "{ x: [ a\n b: v ] }\n"),
+        ("07-multiline-key", "plain-flow-pair-key-on-two-lines", "[ ? x : y, a\n b: v ]\n"),
+        ("08-long-key", "witness", "k" * 1025 + ": v\n"),
         ("09-second-root", "witness", "'a'\n'b'\n"), ("09-second-root", "witness", "[a]\n[b]\n"),
         ("10-bad-escape", "witness", "\"\\q\"\n"), ("10-bad-escape", "witness", "\"\\x4\"\n"),
         ("11-dangling-alias", "witness", "*a\n"), ("11-dangling-alias", "witness", "&a x\n---\n*a\n"),
